@@ -91,7 +91,7 @@ def decide(prop, tier, seed=0, use_cache=True, out=sys.stdout):
                 undecided_units.append((unit, "vacuity-canary", ["canary assert(false) verified (contradictory requires/invariant?) at: %s" % c["canary_missed"]]))
         ev_units.append(ev)
     # ---------------------------------------------------------------- engine K / Kb
-    hs = [h for h, i in cfg["harnesses"].items() if prop in i.get("props", []) and (i.get("tier", "quick") == "quick" or tier == "thorough")]
+    hs = [h for h, i in cfg["harnesses"].items() if prop in i.get("props", []) and i.get("enabled", True) and (i.get("tier", "quick") == "quick" or tier == "thorough")]
     kres = {"harnesses": {}, "status": "success", "messages": []}
     if hs:
         kres = kani_run.run_harnesses(hs, cfg, use_cache=use_cache)
@@ -137,7 +137,7 @@ def decide(prop, tier, seed=0, use_cache=True, out=sys.stdout):
             violations.append(f)
     rc = 0
     downgrade = []
-    twin_names = [h for h, i in cfg["harnesses"].items() if prop in i.get("props", []) and i.get("level") != "complete"]
+    twin_names = [h for h, i in cfg["harnesses"].items() if prop in i.get("props", []) and i.get("level") != "complete" and i.get("enabled", True)]
     need_twins = bool(violations and any(v["engine"] == "verus" for v in violations)) or bool(aux_fail) or any(u[1] in ("extract-error", "compile-error", "tool-error") for u in undecided_units)
     twin_res = None
     if need_twins and twin_names:
